@@ -1,6 +1,8 @@
 // Correspondence harness for C12 / C18: operation sequences over a forest of four named Values.
 //   valseq [@<roots to print>] <op> ; <op> ; ... -> per step "<ret>#<root0>#<root1>#<root2>#<root3>", steps joined by '|'
 //   valview <op> ; ... ; grp D S key -> "<ret>/<abstract view of the grouped result>" of the final GroupBy
+//   valled <op> ; <op> ; ...     -> "ok"; no dumps, the roots are destroyed before the line is emitted, so with
+//                                   -DVERIF_LEDGER the trace appended by vh::emit is the operations' own (C16)
 // A root prints as "<deep dump>@<getter summary>"; the format is the one of lean/Qentem/Driver/Value.lean.
 // Only the public API is used (slots through GetObject()/GetArray(), the pointee of a ValuePtr through the
 // Is*() getters).  Keys are passed in exact-size heap buffers.
@@ -721,11 +723,12 @@ int main() {
     std::string line;
     while (vh::read_line(line)) {
         auto toks = vh::split(line);
-        if (toks.empty() || (toks[0] != "valseq" && toks[0] != "valview")) {
+        if (toks.empty() || (toks[0] != "valseq" && toks[0] != "valview" && toks[0] != "valled")) {
             vh::emit("bad-op");
             continue;
         }
         const bool                            want_view = (toks[0] == "valview");
+        const bool                            ledger    = (toks[0] == "valled"); // no dumps: the trace is the operations' own
         std::vector<std::vector<std::string>> ops;
         ops.emplace_back();
         std::string sel;
@@ -755,13 +758,14 @@ int main() {
                     bad = true;
                     break;
                 }
-                if (!want_view) {
+                if (!want_view && !ledger) {
                     if (k) out += '|';
                     out += r.ret ? "1#" : "0#";
                     out += env_dump(roots.get(), sel);
                 }
             }
             if (want_view) out = view;
+            if (ledger) out = "ok";
         }
         vh::emit(bad ? std::string("bad-op") : out);
     }
